@@ -164,6 +164,17 @@ impl Scenario for Codec {
             _ => Xfer::Fixed(1 + rng.log_range(1, 70_000) as u32),
         };
         let mut chunks = chunks;
+        let mut len = len;
+        let mut kind = kind;
+        if !big && rng.chance(8) {
+            // > 64 KiB of incompressible data as a long run of tiny writes (no flush), then the
+            // rest in one large write
+            let c = 1 + rng.below(511) as u32;
+            let m = (66_000 / c + 1 + rng.below(50) as u32).min(70_000);
+            chunks = Xfer::Script(vec![c; m as usize]);
+            len = (c * m + 600 + rng.below(60_000) as u32).max(70_000);
+            kind = 4;
+        }
         let mut pol = Policy::draw(rng, asyncish);
         if len > 200_000 {
             // keep megabyte inputs affordable
